@@ -112,11 +112,12 @@ def _reshape_array_as_excel(value, base_shape):
     try:
         return np.reshape(value, base_shape)
     except ValueError:
-        res, r, c = _init_reshape(base_shape, value)
-        try:
-            res[:r, :c] = value
-        except ValueError:
-            res[:, :] = Error.errors['#VALUE!']
+        pass
+    res, r, c = _init_reshape(base_shape, value)
+    try:
+        res[:r, :c] = value[:base_shape[0], :base_shape[1]]
+    except (ValueError, IndexError):
+        res[:, :] = Error.errors['#VALUE!']
     return res
 
 
